@@ -239,9 +239,12 @@ def main():
     ids = [1, 2]
     n1 = explore(LDAPServer, server_actions(ids, tier), depth, True)
     n2 = explore(LDAPClient, client_actions(ids, tier), depth, False)
+    # the server answers ids chosen by the peer: the extreme legal MessageIDs (RFC 4511 maxInt = 2^31 - 1) as well, one level shallower
+    big = [2147483647, 2147483646]
+    n1 += explore(LDAPServer, server_actions(big, tier), max(2, depth - 1), True)
     out = {"evaluations": n1 + n2, "contract_evaluations": counts.get("evaluated", 0), "steps": counts.get("steps", 0),
            "depth": depth, "violations": violations[:40], "wall_s": round(time.time() - t0, 2),
-           "bound": f"all API/delivery sequences of length <= {depth} over ids {ids} (server: {len(server_actions(ids, tier))} actions, client: {len(client_actions(ids, tier))} actions), equal abstract situations merged"}
+           "bound": f"all API/delivery sequences of length <= {depth} over ids {ids} (and, for the server, of length <= {max(2, depth - 1)} over ids {big}) (server: {len(server_actions(ids, tier))} actions, client: {len(client_actions(ids, tier))} actions), equal abstract situations merged"}
     json.dump(out, sys.stdout)
 
 
